@@ -496,6 +496,7 @@ def tasks(tier, seed):
             t.append(dict(part='triple', lo=i, hi=min(i + chunk, len(tri)), rot=rot, tier=tier))
     t.append(dict(part='findiff'))
     t.append(dict(part='named_api'))
+    t.append(dict(part='integrate'))
     t.append(dict(part='shared_av'))
     t.append(dict(part='nodb'))
     for i in range(3):
@@ -548,6 +549,8 @@ def run_task(task):
             _findiff(rec)
         elif part == 'named_api':
             _named_api(rec)
+        elif part == 'integrate':
+            _integrate_derivatives(rec)
         elif part == 'shared_av':
             for i, term in enumerate(shared_av_terms()):
                 check_formula(term, rec, f'shared-av#{i}', 'logit-with-a-variable-shared-by-availability-and-utility',
@@ -559,6 +562,61 @@ def run_task(task):
     except StopTask:
         rec.count('task_stopped_after_engine_error')
     return rec.result()
+
+
+
+
+def _integrate_derivatives(rec):
+    """Derivatives of a numerical integral: Integrate(exp(c * omega) * phi(omega), omega) = exp(c^2 / 2) with c linear in one,
+    two or three free parameters (closed form: gradient c f a, Hessian f (1 + c^2) a a^T, a = dc/dparameters), every row,
+    two parameter points, per observation."""
+    import math
+    import biogeme.expressions as ex
+    from vf.engine import make_db
+    rows = [dict(x=1.0), dict(x=2.0), dict(x=0.5)]
+    db = make_db(rows, ['x'])
+    coef = [lambda x: 0.1 * x, lambda x: 0.2, lambda x: 0.05 * x * x]
+    for npar in (1, 2, 3):
+        names = ['ia', 'ib', 'ic'][:npar]
+        for pi, vals in enumerate(([0.5, -0.75, 0.25], [-0.25, 0.5, 1.0])):
+            vals = vals[:npar]
+            betas = [ex.Beta(nm, v, None, None, 0) for nm, v in zip(names, vals)]
+            om = ex.RandomVariable('omega')
+            c_expr = betas[0] * ex.Variable('x') * 0.1
+            if npar >= 2:
+                c_expr = c_expr + betas[1] * 0.2
+            if npar >= 3:
+                c_expr = c_expr + betas[2] * ex.Variable('x') * ex.Variable('x') * 0.05
+            phi = ex.exp(-0.5 * om * om) * (1.0 / math.sqrt(2.0 * math.pi))
+            expr = ex.Integrate(ex.exp(c_expr * om) * phi, 'omega')
+            case = dict(part='integrate', npar=npar, point=pi)
+            key = ('integrate', npar, pi)
+            try:
+                res = expr.get_value_and_derivatives(database=db, gradient=True, hessian=True, bhhh=True, aggregation=False, prepare_ids=True)
+                fs = [float(v) for v in res.functions]
+                gs = [[float(v) for v in g] for g in res.gradients]
+                hs = [[[float(v) for v in r_] for r_ in h] for h in res.hessians]
+            except Exception as e:
+                rec.case(key, ('raised', type(e).__name__), outcome='raised')
+                rec.violation(f'C02|raised-{type(e).__name__}|integrate', f'{npar} parameters: {str(e)[:200]}', case)
+                return
+            rec.case(key, (npar, pi, [round(v, 8) for v in fs]), outcome=('integrate', npar))
+            for ri, row in enumerate(rows):
+                a = [coef[k](row['x']) for k in range(npar)]
+                c = sum(ak * vk for ak, vk in zip(a, vals))
+                f = math.exp(c * c / 2.0)
+                wg = [c * f * ak for ak in a]
+                wh = [[f * (1.0 + c * c) * ai * aj for aj in a] for ai in a]
+
+                def ok(u, w):
+                    return abs(u - w) <= 1e-6 * max(1.0, abs(w))
+                if not ok(fs[ri], f):
+                    rec.violation('C02|value|integrate', f'{npar} parameters, row {ri}: value {fs[ri]} expected {f}', case)
+                elif not all(ok(u, w) for u, w in zip(gs[ri], wg)):
+                    rec.violation('C02|gradient|integrate', f'{npar} parameters, row {ri}: gradient {gs[ri]} expected {wg}', case)
+                elif not all(ok(u, w) for ru, rw in zip(hs[ri], wh) for u, w in zip(ru, rw)):
+                    rec.violation('C02|hessian|engine:Integrate-with-two-or-more-free-parameters' if npar >= 2 else 'C02|hessian|integrate',
+                                  f'{npar} parameters, row {ri}: Hessian {hs[ri]} expected {wh}', case, expected=wh, observed=hs[ri])
 
 
 def _named_api(rec):
@@ -744,6 +802,8 @@ def replay(case):
             _findiff(rec)
         elif part == 'named_api':
             _named_api(rec)
+        elif part == 'integrate':
+            _integrate_derivatives(rec)
         elif part == 'shared_av':
             for i, term in enumerate(shared_av_terms()):
                 check_formula(term, rec, f'shared-av#{i}', 'logit-with-a-variable-shared-by-availability-and-utility',
